@@ -47,7 +47,7 @@ macro_rules! define_ops {
             pub fn by_name(n: &str) -> Option<Op> { Op::ALL.iter().copied().find(|o| o.name() == n) }
         }
         #[allow(unused_mut, unused_variables, unused_imports, clippy::all)]
-        pub fn call<const B: usize, const L: usize>(op: Op, args: &[$crate::v::V]) -> $crate::v::V {
+        pub fn call<const B: usize, const L: usize, const BY: usize>(op: Op, args: &[$crate::v::V]) -> $crate::v::V {
             use $crate::v::{FromV, IntoV};
             match op {
                 $(Op::$id => {
@@ -61,14 +61,14 @@ macro_rules! define_ops {
 }
 
 /// Width dispatch: `dispatch_widths!(fn_name; w0, w1, ...)` defines
-/// `fn_name(bits, op, args) -> V` calling `call::<bits, nlimbs(bits)>`.
+/// `fn_name(bits, op, args) -> V` calling `call::<bits, nlimbs(bits), nbytes(bits)>`.
 #[macro_export]
 macro_rules! dispatch_widths {
     ($name:ident, $call:ident, $opty:ty; $($w:literal),* $(,)?) => {
         pub const WIDTHS: &[usize] = &[$($w),*];
         pub fn $name(bits: usize, op: $opty, args: &[$crate::v::V]) -> $crate::v::V {
             match bits {
-                $( $w => $call::<$w, { ($w + 63) / 64 }>(op, args), )*
+                $( $w => $call::<$w, { ($w + 63) / 64 }, { ($w + 7) / 8 }>(op, args), )*
                 _ => panic!("harness: width {bits} is not instantiated in this group"),
             }
         }
@@ -111,3 +111,20 @@ macro_rules! group_glue {
         }
     };
 }
+
+/// Casts used by the type-coded conversion shims.
+pub trait FromU128 {
+    fn fu(v: u128) -> Self;
+}
+pub trait FromI128 {
+    fn fi(v: i128) -> Self;
+}
+impl FromU128 for bool {
+    fn fu(v: u128) -> Self {
+        v != 0
+    }
+}
+macro_rules! fu { ($($t:ty),*) => {$( impl FromU128 for $t { #[inline] fn fu(v: u128) -> Self { v as $t } } )*}; }
+fu!(u8, u16, u32, u64, u128, usize);
+macro_rules! fi { ($($t:ty),*) => {$( impl FromI128 for $t { #[inline] fn fi(v: i128) -> Self { v as $t } } )*}; }
+fi!(i8, i16, i32, i64, i128, isize);
